@@ -231,7 +231,7 @@ def gen_cases(ctx):
                         need.discard(r[5])
                         sel(s, cfg, lv, fam == 6, "exh")
                 exh.append({"cfg": cfg, "lv": lv, "fam": fam, "hb": hb, "unreached_by_search": sorted(need)[:8],
-                            "target": target})
+                            "found": set(range(1 << hb)) - need, "target": target})
     # 5. serial vs concurrent: many selections at once on one selector
     conc = []
     for workers in ([2, 8, 32] if quick else [2, 3, 4, 8, 16, 32, 32]):
@@ -448,10 +448,15 @@ def run(ctx):
         got = seen.get((id(e["cfg"]), e["lv"]), set())
         fam, addr, ones = e["target"]["p"]
         n = ref.net_eff(e["target"]["p"])
-        allips = {(n["ebase"] + o).to_bytes(n["alen"], "big").hex() for o in range(n["size"])}
+        # every offset for which a crafted seed exists must come back from the Go code.  (The version-0 algorithm
+        # cannot reach some networks at all -- id 0 and networks whose id range is empty -- the search then finds
+        # no seed; that is the legacy selection bug the station reproduces on purpose, not a finding.)
+        allips = {(n["ebase"] + o).to_bytes(n["alen"], "big").hex() for o in e["found"]}
         missing = allips - got
+        full = len(e["found"]) == n["size"]
         ctx.count(("exh", e["lv"], fam, e["hb"], len(missing)), nontrivial=True,
-                  kind="exhaustive-offsets/%s" % ("all-hit" if not missing else "missing"))
+                  kind="exhaustive-offsets/%s" % ("missing" if missing else ("all-hit" if full else
+                                                  ("v0-unreachable-by-design" if e["lv"] == 0 else "search-incomplete"))))
         if missing:
             ctx.fail("offsets-unreachable/libver=%d" % e["lv"],
                      "%d of %d addresses of %s were never selected although crafted seeds exist for each"
